@@ -165,6 +165,10 @@ impl CommonInformationEntry {
     /// Returns the section offset of the CIE.
     fn write<W: Writer>(&self, w: &mut W, eh_frame: bool) -> Result<usize> {
         let encoding = self.encoding;
+        match encoding.address_size {
+            1 | 2 | 4 | 8 => {}
+            _ => return Err(Error::UnsupportedWordSize(encoding.address_size)),
+        }
         let offset = w.len();
 
         let length_offset = w.write_initial_length(encoding.format)?;
